@@ -320,3 +320,34 @@ def b_tiny(tier, seed):
             seen.add(f["what"])
             out.append(f)
     return {"cases": cases, "distinct": cases, "failures": out, "bound": f"{len(dirs)} directions x |psi| = 10^-k (k=0..9) x 4 routines, absolute tolerance {tol}; worst errors {{{', '.join(f'{n}: {e:.2e}@1e-{kk}' for n, (e, kk) in worst.items())}}}"}
+
+
+@contract("C03", "derivative routines/integer-typed arguments", samples=0, replayable=False, timeout=30)
+def c_integer_arguments(k):
+    """a rotation vector / twist / quaternion / matrix given as an INTEGER-typed array denotes the same real values: every
+    routine returns what it returns for the float-typed array (they used to allocate their result with the dtype of the
+    argument and silently truncated it; executed natively)"""
+    from vk import kit as K
+    from vk import npshim
+
+    if not k.sym:
+        raise K.Reject("decided by native execution")
+    import cardillo.math.rotations as r
+
+    k.covers(r.Exp_SO3_psi, r.T_SO3_psi, r.T_SO3_inv_psi, r.Log_SO3_A, r.Exp_SE3_h, r.Log_SE3_H, r.Exp_SO3_quat_P, r.T_SO3_quat_P, r.T_SO3_inv_quat_P)
+    with npshim.active(False):
+        psi, h, P = np.array([1, 2, 0]), np.array([1, 2, 0, 0, 1, 1]), np.array([1, 2, 0, 1])
+        Ai = np.array([[0, -1, 0], [1, 0, 0], [0, 0, 1]])
+        Hi = np.array([[0, -1, 0, 1], [1, 0, 0, 2], [0, 0, 1, 3], [0, 0, 0, 1]])
+        cases = [("Exp_SO3_psi", psi), ("T_SO3_psi", psi), ("T_SO3_inv_psi", psi), ("Exp_SE3_h", h), ("Exp_SO3_quat_P", P), ("T_SO3_quat_P", P), ("T_SO3_inv_quat_P", P), ("Log_SO3_A", Ai), ("Log_SE3_H", Hi), ("Exp_SO3", psi), ("Exp_SE3", h), ("T_SO3", psi), ("T_SO3_inv", psi), ("T_SE3", h), ("Log_SO3", Ai), ("Log_SE3", Hi)]
+        for name, x in cases:
+            fn = getattr(r, name)
+            try:
+                a, b = np.asarray(fn(x)), np.asarray(fn(x.astype(float)))
+                ok = bool(a.shape == b.shape and np.allclose(np.asarray(a, dtype=float), b, atol=1e-13))
+            except Exception as e:  # noqa: BLE001
+                ok = False
+                name = f"{name} (raised {type(e).__name__})"
+            k.prove(f"{name}: integer-typed argument gives the result of the float-typed argument", ok)
+        a, b = r.T_SO3_dot(psi, np.array([2, 1, 1])), r.T_SO3_dot(psi.astype(float), np.array([2.0, 1, 1]))
+        k.prove("T_SO3_dot: integer-typed arguments give the result of the float-typed arguments", bool(np.allclose(np.asarray(a, dtype=float), b, atol=1e-13)))
